@@ -41,6 +41,7 @@ func HarnessC20_args() {
 	vfsAddFile("a.b.yaml", map[string]any{"y": 2})
 	vfsAddFile("plain.txt", map[string]any{})
 	vfsAddFile("bad.yaml", map[string]any{"r": "$required"})
+	vfsAddFile("c.yml", map[string]any{"z": 3})
 	n := 1 + ndChoice(3)
 	if vTier() > 0 {
 		n = ndChoice(5)
@@ -49,7 +50,7 @@ func HarnessC20_args() {
 	kinds := []int{}
 	anyFail := false
 	for i := 0; i < n; i++ {
-		k := ndChoice(9)
+		k := ndChoice(11)
 		var a string
 		switch k {
 		case 0:
@@ -69,6 +70,10 @@ func HarnessC20_args() {
 			a = "a.b.json" // virtual name: another supported extension
 		case 6:
 			a = "nothere.yaml" // supported extension, no such layer
+		case 9:
+			a = "c.yml" // existing layer file under the .yml extension
+		case 10:
+			a = "c.toml" // virtual name whose only real file is c.yml
 		case 7:
 			a = "bad.yaml" // evaluation fails
 			anyFail = true
@@ -76,7 +81,7 @@ func HarnessC20_args() {
 			// every short alphanumeric name, optionally with a supported
 			// extension, that does not name a layer: must arrive unchanged
 			stem := ndStr(2, "alnum")
-			vAssume(vAnd(stem != "a", stem != "bad"))
+			vAssume(vAnd(stem != "a", vAnd(stem != "bad", stem != "c")))
 			a = stem
 			if ndChoice(2) == 1 {
 				a = stem + ".toml"
@@ -106,7 +111,7 @@ func HarnessC20_args() {
 	for i := 0; i < n; i++ {
 		got := argv[i+1]
 		switch kinds[i] {
-		case 4, 5:
+		case 4, 5, 9, 10:
 			want, ok := c20Expected(args[i])
 			vAssert("C20.expected", ok)
 			vAssert("C20.replaced", got != args[i])
